@@ -8,7 +8,7 @@ EXPLANATION = (
     "the same arguments); (R2) dispatch_event evaluates the limit with ordinal itr+1 and the fetched time, before the counter "
     "increment, the clock write and the handler; (R3) every successful return of finish has observed the event set empty (all "
     "remaining frames are fetched and pushed), and reports the clock as end time; (R4) Builder::{max_itr,max_time,limit} compose "
-    "through RuntimeLimit::add, which yields CombinedOr(old,new) unless old is None. Decides these necessary conditions only; "
+    "through RuntimeLimit::add, which yields CombinedOr(old,new) unless old is None; (R5) the stepping wrappers restore the configured limit on every returning path. Decides these necessary conditions only; "
     "prefix-exactness over programs additionally needs C01/C10.")
 ASSUMPTIONS = ["&& and || short-circuit as in Rust; usize/SimTime comparisons are total orders"]
 USES_B = True
@@ -313,6 +313,15 @@ def r3_finish(ctx, cfg='A'):
         n += 1
         outs = call_outcomes(f, path, decs, _fes(cfg) + '::is_empty')
         last = outs[-1][1] if outs else None
+        # ... observed AFTER the tear-down handlers ran (they may schedule events of their own, which must be returned as remaining too)
+        effs_ = path_effects(f, path)
+        i_end = [i for i, e in enumerate(effs_) if e[0] == 'c' and (e[1].callee or e[1].name).endswith('EventLifecycle::at_sim_end')]
+        i_emp = [i for i, e in enumerate(effs_) if e[0] == 'c' and e[1].name == _fes(cfg) + '::is_empty']
+        if i_end and last is True and outs:
+            last_true_site = outs[-1][0]
+            i_last = max([i for i, e in enumerate(effs_) if e[0] == 'c' and e[1].b == last_true_site.b and e[1].name == last_true_site.name] or [-1])
+            if i_last < i_end[-1]:
+                last = 'stale'   # the emptiness test predates at_sim_end
         if any(s.b in path for s in drains):
             last = True   # the drain call returns only once the closure has seen the set empty
         if last is not True:
@@ -463,3 +472,9 @@ def run(ctx):
         r3_finish(ctx, cfg)
     ctx.cfg = 'A'
     r4_builder_composition(ctx)
+    # (R5) a step installs its temporary limit, runs the loop and restores the configured limit on EVERY returning path (shared with C10.R1):
+    # a leaked step limit silently replaces the limit the runtime was built with
+    from .C10 import r1_step_wrappers
+    for cfg in [c for c in ('A', 'B') if c in ctx.progs]:
+        r1_step_wrappers(ctx, cfg, rule='C11.R5')
+    ctx.cfg = 'A'
